@@ -26,13 +26,16 @@ func (c *ColUUID) DecodeColumn(r *Reader, rows int) error {
 
 func (c ColUUID) EncodeColumn(b *Buffer) {
 	const size = 16
-	offset := len(b.Buf)
+	start := len(b.Buf)
+	offset := start
 	b.Buf = append(b.Buf, make([]byte, size*len(c))...)
 	for _, v := range c {
 		copy(b.Buf[offset:offset+size], v[:])
 		offset += size
 	}
-	bswap.Swap64(b.Buf) // BE <-> LE
+	// Only the appended values are converted: the buffer may already hold
+	// other columns of the block.
+	bswap.Swap64(b.Buf[start:]) // BE <-> LE
 }
 
 // WriteColumn encodes ColUUID rows to *Writer.
